@@ -62,6 +62,10 @@ claim('C16', 'CrossHair symbolic execution of the real embedded-transformer plum
       'classes over symbolic tree shapes with call-recording callbacks',
       'Bounded by text length (lexemes), transformer family (5 classes: plain, terminal callbacks, v_args inline, v_args tree, partial) and tree size.',
       'Relational: transform-afterwards is the reference for the embedded run; Transformer is the reference for its variants.', '3/C16')
+claim('C17', 'CrossHair solver-closed enumeration (realised) of module-set programs (import subsets, renaming, transitive import, %override, %extend, same-named local definitions, nested templates) '
+      'and statement sequences; a textual inliner implementing the documented renaming rule produces the reference grammar; both are built by the real front end',
+      'Bounded: 128 programs of one module-set template x statement sequences up to the bound; LALR (quick) and Earley (thorough).',
+      'Trusted: the ~40 line textual inliner; trees compared after stripping the documented module__ prefix.', '3/C17')
 claim('C18', 'CrossHair symbolic execution of the real Indenter: one handle_NL step from an arbitrary symbolic state (unbounded stack values, bracket depth, tab_len) and bounded '
       'lazily realised token streams incl. streams after an abandoned/failed earlier stream, vs. CPython\'s stack algorithm and the real tokenize module',
       'The step harness is inductive (one step from an arbitrary valid state covers streams of any length) for stack depth <= 6; streams are bounded in length.',
